@@ -128,7 +128,7 @@ def _device_cases(tier, **fixed):
         yield ("fan_percent", False, s)
     for s in range(0, 4):
         yield ("fan_step", False, s)
-    for step in (0.1, 0.2, 0.5, 1.0):
+    for step in (0.05, 0.1, 0.125, 0.2, 0.25, 0.5, 1.0):
         for k in range(-127, 128, 1 if dense else 3):
             if abs(k * step) > 20:  # beyond setpoint_shift_min/max the device clamps the request by design
                 continue
@@ -144,7 +144,7 @@ def _device_cases(tier, **fixed):
         yield ("light_rgb", False, (r, g, b))
 
 
-@standin("C39", cases=_device_cases, kind="enum-native", exhaustive=False, bound="real devices on a real XKNX object (no interface): Switch and Cover (position, angle) plain and inverted, Light brightness and RGB colour, Fan percent and 3-step mode, Climate setpoint shift and target temperature through a setpoint shift (steps 0.1/0.2/0.5/1.0, every shift of -127..127 steps within +-20 K), NumericValue temperature / percent, RawValue; every 1st (thorough) or 3rd-5th (quick) value of each integer range; the setter's telegrams are processed as outgoing and the reported state compared with the request (equal, or within half a step of the datapoint)")
+@standin("C39", cases=_device_cases, kind="enum-native", exhaustive=False, bound="real devices on a real XKNX object (no interface): Switch and Cover (position, angle) plain and inverted, Light brightness and RGB colour, Fan percent and 3-step mode, Climate setpoint shift and target temperature through a setpoint shift (steps 0.05/0.1/0.125/0.2/0.25/0.5/1.0, every shift of -127..127 steps within +-20 K), NumericValue temperature / percent, RawValue; every 1st (thorough) or 3rd-5th (quick) value of each integer range; the setter's telegrams are processed as outgoing and the reported state compared with the request (equal, or within half a step of the datapoint)")
 def device_reports_what_was_requested(kind, opt, v):
     from xknx import XKNX
     from xknx.devices import Climate, Cover, Fan, Light, NumericValue, RawValue, Switch
